@@ -36,6 +36,10 @@ func NewUniverse(maxDepth int, extra bool) *Universe {
 			// same value bytes under different types: siblings that only differ in the type
 			enc.NewSegmentComponent(1),
 			enc.Component{Typ: 8, Val: []byte{1}},
+			// digest components (implicit SHA-256 digest, parameters digest): a prefix may end in one,
+			// and a lookup by exactly that name must find it
+			enc.Component{Typ: enc.TypeImplicitSha256DigestComponent, Val: make([]byte, 32)},
+			enc.Component{Typ: enc.TypeParametersSha256DigestComponent, Val: append(make([]byte, 31), 7)},
 		)
 	}
 	return u
